@@ -25,6 +25,68 @@ def parse_flow_case(c):
     return n, parts[1].strip(), labels
 
 
+def coq_wf(spec):
+    tasks = []
+    for ent in spec.split(";"):
+        _, ds, tr = ent.strip().split(":")
+        deps = []
+        if ds not in ("-", ""):
+            for d in ds.split(","):
+                if "@" in d:
+                    a, b = d.split("@")
+                    deps.append("(%s, Some %s)" % (a, b))
+                else:
+                    deps.append("(%s, None)" % d)
+        tasks.append("mkTask [%s] %s" % ("; ".join(deps), "None" if tr in ("-", "") else "(Some %s)" % tr))
+    return "[" + "; ".join(tasks) + "]"
+
+
+def coq_labels(labels):
+    out = []
+    for l in labels:
+        if l == "X":
+            out.append("Cancel")
+        elif l[0] == "D":
+            out.append("Dispatch %s" % l[1:])
+        else:
+            out.append("Complete %s %s" % (l[1:-1], "true" if l[-1] == "+" else "false"))
+    return "[" + "; ".join(out) + "]"
+
+
+def vm_crosscheck(ctx, exe, cases):
+    """Guard the extraction and the OCaml driver: the same acceptance questions are
+    answered by the extracted model and by vm_compute inside Coq."""
+    flows = [c for c in cases if c.startswith("FLOW")]
+    step = max(1, len(flows) // 14)
+    qs = []
+    for c in flows[::step][:14]:
+        n, spec, labels = parse_flow_case(c)
+        variants = [labels]
+        if len(labels) >= 2:
+            variants.append([labels[1], labels[0]] + labels[2:])
+            variants.append(labels[1:])
+            variants.append(labels[:-2] + [labels[-1], labels[-2]])
+        for v in variants:
+            qs.append((n, spec, v))
+    lines = ["ACC %d | %s | %s" % (n, spec, " ".join(v)) for n, spec, v in qs]
+    p = vlib.run([exe], input="\n".join(lines) + "\n", timeout=600, stderr=None)
+    ml = [x == "acc=1" for x in p.stdout.split("\n")[:-1]]
+    vf = os.path.join(ctx.work, "c18_vm.v")
+    with open(vf, "w") as f:
+        f.write("From Verif Require Import Flow.Model Extract.C18.\nFrom Coq Require Import List.\nImport ListNotations.\n")
+        f.write("Eval vm_compute in [\n  " + ";\n  ".join(
+            "c18_accepts %s %s" % (coq_wf(spec), coq_labels(v)) for _, spec, v in qs) + "].\n")
+    with vlib.Lock("coq"):
+        q = vlib.run(["timeout", "600", "coqc", "-Q", os.path.join(vlib.COQ, "theories"), "Verif",
+                      "-o", os.path.join(ctx.work, "c18_vm.vo"), vf], cwd=ctx.work, check=False)
+    if q.returncode != 0:
+        raise vlib.CheckFailure("vm_compute cross-check failed to compile:\n" + q.stdout[-3000:])
+    vm = [t == "true" for t in re.findall(r"\b(true|false)\b", q.stdout.split(":")[0])]
+    if len(vm) != len(ml) or vm != ml:
+        raise vlib.CheckFailure("extracted model and vm_compute disagree: ocaml=%s vm=%s" % (ml, vm))
+    return {"questions": len(qs), "accepted": sum(ml), "rejected": len(ml) - sum(ml)}
+
+
 def run(ctx):
     quick = ctx.tier == "quick"
     proof = vlib.prove("C18", extra_targets=["theories/Extract/C18.vo"])
@@ -33,19 +95,29 @@ def run(ctx):
         if proof["coqchk_rc"] != 0:
             raise vlib.CheckFailure("coqchk failed: " + proof["coqchk_tail"])
     exe = vlib.build_model("C18", "extract/C18.v", "ocaml/c18_driver.ml")
-    harness, hsecs = vlib.build_harness("c18", shims=SHIMS)
-    args = [harness, "--seed", str(ctx.seed), "--out", ctx.work]
+    shims = dict(SHIMS)
+    # Mutation testing without touching /repo (other checks may be running against it):
+    # VERIF_C18_EXTRA_OVERLAY='{"tools/flow/run.go": "/tmp/.../run.go"}' replaces files of the
+    # working tree in the overlay of the harness build.  Unset in normal operation.
+    extra = os.environ.get("VERIF_C18_EXTRA_OVERLAY")
+    if extra:
+        shims.update(json.loads(extra))
+    harness, hsecs = vlib.build_harness("c18", shims=shims)
+    gen = (["--nflow", "1500", "--reps", "4", "--ncyc", "8000", "--exhaustive", "20"] if quick else
+           ["--nflow", "12000", "--reps", "6", "--ncyc", "200000", "--exhaustive", "600", "--max-orders", "800"])
+    args = [harness, "--seed", str(ctx.seed), "--out", ctx.work] + gen
     if ctx.replay:
         rp = json.load(open(ctx.replay))
-        cf = os.path.join(ctx.work, "replay_cases.txt")
-        with open(cf, "w") as f:
-            f.write(rp.get("case", "") + "\n")
-            f.write(rp.get("cue", "").replace("\n", "\\n") + "\n")
-        args += ["--replay-cases", cf]
-    elif quick:
-        args += ["--nflow", "700", "--reps", "4", "--ncyc", "6000", "--exhaustive", "12"]
-    else:
-        args += ["--nflow", "6000", "--reps", "6", "--ncyc", "200000", "--exhaustive", "400"]
+        case = rp.get("case", "")
+        if case.startswith("CYC"):
+            args = [harness, "--out", ctx.work, "--cyc-line", case]
+        elif case.startswith("FLOW") and "job" in rp:
+            # regenerate the same (workflow, schedule) stream and re-run that job with
+            # the recorded completion order
+            args = [harness, "--seed", str(rp.get("seed", ctx.seed)), "--out", ctx.work] + rp.get("gen_args", gen) + \
+                   ["--only", str(rp["job"]), "--script", " ".join(l for l in parse_flow_case(case)[2] if l[0] != "D")]
+        else:
+            raise vlib.CheckFailure("replay file has no replayable case")
     vlib.run(args, timeout=3000)
     cases = open(os.path.join(ctx.work, "cases.txt")).read().split("\n")[:-1]
     impl = open(os.path.join(ctx.work, "impl.txt")).read().split("\n")[:-1]
@@ -63,6 +135,9 @@ def run(ctx):
         for line in open(cp):
             k, _, v = line.rstrip("\n").partition("\t")
             cue_of[k] = v.replace("\\n", "\n")
+    vm = vm_crosscheck(ctx, exe, cases) if not ctx.replay else {}
+    # the first nflow*reps case lines are the randomly scheduled jobs, in job order
+    nrandom = int(gen[1]) * int(gen[3])
     kinds = collections.Counter()
     ends = collections.Counter()
     sizes = collections.Counter()
@@ -81,6 +156,8 @@ def run(ctx):
             ends[mm.group(1) if mm else "none"] += 1
             if i == m:
                 traces += 1
+        if k == "SKIP":
+            continue
         if c not in distinct:
             distinct.add(c)
             if k == "FLOW":
@@ -102,9 +179,12 @@ def run(ctx):
                             "results visible at dispatch, outcome of Run, final Controller.Value()) is not the one the model produces for the same "
                             "completion order; END:timeout = deadlock, VAL:neq = final configuration != initial & results, REJECT = the controller "
                             "did something the model does not allow (e.g. started a task that is not Ready)")
-                ctx.violation({"kind": "impl-differs-from-proved-model", "case": c, "impl": i, "model": m,
-                               "cue": cue_of.get(str(idx), ""), "what": what,
-                               "replay": "bin/check C18 --replay <this file>"})
+                payload = {"kind": "impl-differs-from-proved-model", "case": c, "impl": i, "model": m,
+                           "cue": cue_of.get(str(idx), ""), "what": what, "seed": ctx.seed, "gen_args": gen,
+                           "replay": "bin/check C18 --replay <this file>"}
+                if k == "FLOW" and idx < nrandom and not ctx.replay:
+                    payload["job"] = idx
+                ctx.violation(payload)
     if not samples and cases:
         samples.append({"case": cases[0][:400], "impl": impl[0][:400], "model": model[0][:400]})
     ctx.coverage.update({
@@ -123,6 +203,7 @@ def run(ctx):
         "flow_outcomes": dict(ends),
         "flow_sizes": {str(k): v for k, v in sorted(sizes.items())},
         "generator_stats": stats,
+        "vm_compute_crosscheck": vm,
         "traces_validated_against_impl": traces,
         "mismatches": mismatches,
         "harness_build_s": hsecs,
@@ -133,7 +214,7 @@ def run(ctx):
 
 MANIFEST = {
     "category": "proof",
-    "text": "TODO",
-    "note": "TODO",
-    "technique": "Coq proof (invariants over all executions of the controller state machine; correctness of the cycle checker) + extracted-model trace acceptance against tools/flow under PRNG-chosen and exhaustively enumerated completion orders",
+    "text": "Coq theorems over ALL executions (any completion order, any outcomes, cancellation) of an executable, implementation-faithful model of tools/flow's controller (runLoop, markReady, updateValue, updateTaskValue, updateTaskResults, the task bookkeeping of initTasks/getTask/addDep, checkCycle): a task is dispatched only after every task it refers to (late references included) completed successfully, and it sees a configuration containing all results so far; every task is dispatched and completes at most once; in an acyclic workflow without failure no state is stuck before all tasks ran (a measure drops by one per event, exactly 2*|tasks| events); after a failure or cancellation nothing starts and transitive dependants of a failed task never start; the deadlock branch is unreachable for every workflow because checkCycle reports an error iff the dependency graph has a cycle (fuel always sufficient); the merged results are exactly the successful completions, so the final configuration does not depend on completion order. The model is tied to /repo by replaying, for generated workflows compiled to CUE and PRNG-chosen / exhaustively enumerated completion orders with injected failures and cancellations, the observed event trace (task states and Task.Dependencies() after every update, dependency results visible at dispatch, outcome of Run, Controller.Value() == initial & results) through the extracted model with the generator's ground-truth dependency graph; timeouts count as deadlock.",
+    "note": "Trusted: Coq kernel; the hand-written model of run.go/cycle.go and of the bookkeeping part of tasks.go; the generator's ground-truth dependency rules standing for tasks.go markTaskDependencies + internal/core/dep (compared with Task.Dependencies() on every update, not proved); extraction (ExtrOcamlBasic, guarded by a vm_compute cross-check) and the OCaml/Go drivers. Not modelled: Service/deferred tasks and ForkRunLoop, InferTasks, IgnoreConcrete, tasks that vanish from the configuration, tasks that do not Fill, UpdateFunc errors; final_config_order_free is about the multiset of merged results (order-insensitivity of unification itself is C01). Side conditions wf_known/wf_trig/wf_closed/acyclic are decidable and evaluated on every generated workflow.",
+    "technique": "Coq proof (14-clause invariant preserved by every step, induction over executions, pigeonhole argument for deadlock freedom, correctness of the fuelled on-stack DFS) + extracted-model trace acceptance against tools/flow under controlled completion orders",
 }
